@@ -2,11 +2,12 @@
    commits), instantiated with the generated parameters: block size (Params.v), BufWriter capacity and
    pipeline sizes (Crash/FailParams.v), the concrete CRC-32.  Proofs by `exact`.
 
-   Writer level (Crash/Fail.v): runs of Wal commands under ARBITRARY answers of write(2)/fsync.
-   Pipeline level (Conc/PipeFail.v): arbitrary interleavings of committers.
-   The two plain crash statements and the plain live invisibility statement are REFUTED for the code as it
-   is (witnesses below, confirmed on the implementation by tools/vlib/c15.py); the `_outside_known`
-   theorems state what holds outside executable classes. *)
+   Writer level (Crash/Fail.v): runs of Wal commands under ARBITRARY answers of write(2)/fsync, on the Wal with
+   its `failed` flag (`xrun`: the code since the repair of C15-N1/N2/N10): the two plain crash statements are
+   THEOREMS, without any excluded class.  The writer as it was before (`frun`) is kept as a regression
+   record: it violated both.
+   Pipeline level (Conc/PipeFail.v): arbitrary interleavings of committers; the plain live invisibility statement
+   is still REFUTED (partial apply, C15-N5); `_outside_known` states what holds outside the executable class. *)
 From Coq Require Import List NArith Arith Bool.
 From SKV Require Import Params Base.Crc32 Codec.Wal Codec.WalSpec Codec.WalInst
   Crash.Fail Crash.FailSpec Crash.Fail_proofs Crash.FailParams Crash.FailInst Crash.FailInst_proofs
@@ -31,43 +32,56 @@ Proof.
 Qed.
 
 Section WithCompression.
-Variable compress : list byte -> list byte.
 Variable decompress : list byte -> option (list byte).
 
-(* whatever short writes and errors happen: while no append failed between two writes of one record,
-   file ++ buffer is the byte stream of a fault-free writer and block_offset is in step with it *)
-Theorem C15_stream_wellformed : fm_stream_wellformed_stmt WB FC wal_crc compress.
-Proof. exact (fm_stream_wellformed WB FC wal_crc compress). Qed.
+(* for EVERY pattern of short writes, write errors and fsync errors and every sequence of append / flush / sync /
+   close on a segment — commands after a failure and after close included —, what a crash leaves in the file
+   delivers EXACTLY the acknowledged appends, in order *)
+Theorem C15_crash_delivers_exactly_acked : crash_delivers_exactly_acked_stmt WB FC wal_crc decompress.
+Proof. exact (crash_delivers_exactly_acked WB FC wal_crc decompress). Qed.
 
-(* later_acks_recovered outside the class `known_mid_emit_failure`: once the buffer is drained a crash
-   delivers exactly the emitted records in order (all acknowledged ones among them), then a clean end *)
-Theorem C15_later_acks_recovered_outside_known : later_acks_recovered_outside_known_stmt WB FC wal_crc decompress.
-Proof. exact (later_acks_recovered_outside_known WB FC wal_crc decompress). Qed.
+(* failed_invisible_after_crash, in full: no record of an append that was not acknowledged is ever delivered *)
+Theorem C15_failed_invisible_after_crash : xfailed_invisible_after_crash_stmt WB FC wal_crc decompress.
+Proof. exact (xfailed_invisible_after_crash WB FC wal_crc decompress). Qed.
 
-(* failed_invisible_after_crash outside the classes `known_used_after_failure`, `known_fsync_failed`:
-   a crash right after the first failed command delivers EXACTLY the acknowledged records *)
-Theorem C15_failed_invisible_after_crash_outside_known :
-  failed_invisible_after_crash_outside_known_stmt WB FC wal_crc decompress.
-Proof. exact (failed_invisible_after_crash_outside_known WB FC wal_crc decompress). Qed.
+(* later_acks_recovered, in full: every acknowledged append is delivered *)
+Theorem C15_later_acks_recovered : xlater_acks_recovered_stmt WB FC wal_crc decompress.
+Proof. exact (xlater_acks_recovered WB FC wal_crc decompress). Qed.
 End WithCompression.
 
-(* a successful append or flush leaves the BufWriter empty *)
-Theorem C15_ok_drains : fm_ok_drains_stmt WB FC wal_crc.
-Proof. exact (fm_ok_drains WB FC wal_crc). Qed.
+(* the failure is sticky: once a command failed or was refused no append is acknowledged any more
+   (any command sequence, rotate included) *)
+Theorem C15_no_ack_after_failure : no_ack_after_failure_stmt WB FC wal_crc.
+Proof. exact (no_ack_after_failure WB FC wal_crc). Qed.
 
 (* short writes alone (any pattern, no error return) never make a command fail *)
-Theorem C15_short_writes_harmless : short_writes_harmless_stmt WB FC wal_crc.
-Proof. exact (short_writes_harmless WB FC wal_crc). Qed.
+Theorem C15_short_writes_harmless : xshort_writes_harmless_stmt WB FC wal_crc.
+Proof. exact (xshort_writes_harmless WB FC wal_crc). Qed.
 
-(* REFUTED: a record whose append failed is delivered after later successful appends and a crash
-   (witness: three 1-byte records, the second write(2) fails once) *)
-Theorem C15_failed_invisible_after_crash_refuted : ~ failed_invisible_after_crash_stmt WB FC wal_crc nod.
+(* what remains excluded lives one level up, at a sync COMMIT = append + sync (C15-N3, store level): when the fsync
+   fails the record is already in the file; the commit fails, the record is delivered.  Per append nothing is
+   wrong (the append was acknowledged), which is why the theorems above need no exclusion; the class predicate
+   is `xknown_fsync_failed`. *)
+Example C15_fsync_failed_sync_commit :
+  x3_results = [XOk; XFail FFailFsync; XRefused] /\ xknown_fsync_failed x3_results = true /\
+  xdelivered WB wal_crc nod (fst (fi_xrun x3_wenv x3_senv walx0 x3_cmds)) = [[1%N]] /\
+  xacked x3_cmds x3_results = [[1%N]].
+Proof. exact x3_fsync_failed. Qed.
+
+(* ---- regression record: the writer before the repair (`frun`: nothing undone on an error path, the writer used
+   again afterwards) violated both statements; the same inputs on the repaired Wal ---- *)
+Theorem C15_old_writer_failed_invisible_after_crash_refuted : ~ failed_invisible_after_crash_stmt WB FC wal_crc nod.
 Proof. exact failed_invisible_after_crash_refuted. Qed.
-
-(* REFUTED: an append acknowledged after a failed one is lost (witness: a 40000-byte record whose first
-   write(2) fails once leaves the header of its second fragment buffered and block_offset 7 behind) *)
-Theorem C15_later_acks_recovered_refuted : ~ later_acks_recovered_stmt WB FC wal_crc nod.
+Theorem C15_old_writer_later_acks_recovered_refuted : ~ later_acks_recovered_stmt WB FC wal_crc nod.
 Proof. exact later_acks_recovered_refuted. Qed.
+Example C15_former_witnesses_on_the_repaired_wal :
+  (snd (fi_xrun w_wenv w_senv walx0 x1_cmds) = [XOk; XFail FFailFlush; XRefused; XOk] /\
+   xdelivered WB wal_crc nod (fst (fi_xrun w_wenv w_senv walx0 x1_cmds)) = [[1%N]] /\
+   xacked x1_cmds x1_results = [[1%N]] /\ cur_buf (x_wal (fst (fi_xrun w_wenv w_senv walx0 x1_cmds))) = []) /\
+  x2_results = [XOk; XFail FFailEmit; XRefused; XRefused; XOk] /\
+  xdelivered WB wal_crc nod (fst (fi_xrun w_wenv w_senv walx0 x2_cmds)) = [[1%N]] /\
+  xacked x2_cmds x2_results = [[1%N]].
+Proof. split; [exact x1_regression | split; [exact x2_results_eq | split; [exact x2_delivered | exact x2_acked]]]. Qed.
 
 Definition C15_SLOTS : nat := N.to_nat C15_COMMIT_SLOTS.
 Definition C15_PERMITS : nat := N.to_nat C15_COMMIT_PERMITS.
@@ -109,19 +123,18 @@ Example C15_former_overflow_trace :
   | None => False end.
 Proof. split; [exact wq_not_a_behaviour | split; [exact wq_blocked | exact wq_drains]]. Qed.
 
-(* non-vacuity: the witnesses lie in the known classes; a fault-free run meets every hypothesis *)
-Example C15_witness_classes :
-  known_used_after_failure (snd w1_run) = true /\ known_mid_emit_failure w2_results = true /\
-  known_partial_apply wl_trace = true.
-Proof. repeat split; vm_compute; reflexivity. Qed.
+(* non-vacuity: the live witness lies in its known class; a run under 1-byte writes, with a close in the middle,
+   meets every hypothesis and delivers what was acknowledged *)
+Example C15_witness_classes : known_partial_apply wl_trace = true.
+Proof. reflexivity. Qed.
 
-Definition c15_ex_cmds : list wcmd := [CAppend [1%N; 2%N]; CSync; CAppend []; CAppend [3%N]; CFlush].
-Definition c15_ex_run : wal * list fres :=
-  Eval vm_compute in fi_run (fun _ => WShort 1) (fun _ => true) wal0 c15_ex_cmds.
+Definition c15_ex_cmds : list xcmd :=
+  [XC (CAppend [1%N; 2%N]); XC CSync; XC (CAppend []); XC (CAppend [3%N]); XC CFlush; XClose; XC (CAppend [4%N]); XC CSync].
+Definition c15_ex_results : list xres :=
+  Eval vm_compute in snd (fi_xrun (fun _ => WShort 1) (fun _ => true) walx0 c15_ex_cmds).
 Example C15_short_writes_example :
-  run1 WB FC wal_crc (fun _ => WShort 1) (fun _ => true) c15_ex_cmds = c15_ex_run /\
-  snd c15_ex_run = [FOk; FOk; FRejected; FOk; FOk] /\
-  known_used_after_failure (snd c15_ex_run) = false /\ known_fsync_failed (snd c15_ex_run) = false /\
-  known_mid_emit_failure (snd c15_ex_run) = false /\ cur_buf (fst c15_ex_run) = [] /\
-  delivered WB wal_crc nod (fst c15_ex_run) = [[1%N; 2%N]; [3%N]].
+  c15_ex_results = [XOk; XOk; XRejected; XOk; XOk; XOk; XRefused; XOk] /\
+  xno_rotate c15_ex_cmds = true /\ xack_after false c15_ex_cmds c15_ex_results = false /\
+  xacked c15_ex_cmds c15_ex_results = [[1%N; 2%N]; [3%N]] /\
+  xdelivered WB wal_crc nod (fst (fi_xrun (fun _ => WShort 1) (fun _ => true) walx0 c15_ex_cmds)) = [[1%N; 2%N]; [3%N]].
 Proof. repeat split; vm_compute; reflexivity. Qed.
